@@ -97,6 +97,18 @@ def run_case(case, seed):
                     h.update(np.round(x, 6).tobytes())
                 except Exception as e:
                     bad(f"{how}:{tag}", f"exc:{type(e).__name__}", {"msg": str(e)[:300]})
+        # the same inverse operator applied again to right-hand sides of the same shape and dtype but very different norm (a lazy
+        # iterative inverse must solve every product to the requested accuracy, whatever it solved before)
+        for tag, scale in (("reuse-small", 2.0**-24), ("reuse-large", 2.0**20), ("reuse-tiny", 2.0**-40)):
+            ntr += 1
+            try:
+                b = (P.operand(seed, n, None, "f8", "c06re" + tag) + 0.25) * scale
+                x = np.asarray(Ainv @ b)
+                rr = rel_res(M, x, b.astype(np.complex128))
+                if x.shape != b.shape or not np.all(np.isfinite(x)) or rr > tol_res:
+                    bad(f"inv@b:{tag}", "residual", {"rel_residual": rr, "tol": tol_res, "scale": scale})
+            except Exception as e:
+                bad(f"inv@b:{tag}", f"exc:{type(e).__name__}", {"msg": str(e)[:300]})
         ntr += 1
         try:
             Dn = np.asarray(Ainv.to_dense())
